@@ -54,7 +54,7 @@ func suiteFiles(c *ctx) {
 		{".sql", ".down.sql"}, {".up.sql", ".sql"}, {"", ".down"}, {"sql", ".sql"}}
 	simple := []Stmt{tbl("t", col("a", "int(11)"), col("b", "int(11)"))}
 	id := 0
-	mode := []string{"plain", "version", "withversion", "emptyboth", "onlyup"}
+	mode := []string{"plain", "version", "withversion", "emptyboth", "onlyup", "emptydown"}
 	for ni, name := range names {
 		for si, sf := range suffixes {
 			m := mode[(ni+si)%len(mode)]
@@ -84,6 +84,18 @@ func suiteFiles(c *ctx) {
 				upText = s.StringUp() + "\n\n" + strings.TrimPrefix(sqlize.NewSqlize().StringUpWithVersion(7, true), "\n")
 				downText = s.StringDown() + "\n\n" + strings.TrimPrefix(sqlize.NewSqlize().StringDownWithVersion(7), "\n")
 				err = s.WriteFilesWithVersion(name, 7, true)
+			case "emptydown":
+				// up has text, down has none (seeded change C11-i): SQLite adds a column and has no statement to drop it
+				s = sqlize.NewSqlize(sqlize.WithSqlite(), sqlize.WithMigrationFolder(dir), sqlize.WithMigrationSuffix(sf[0], sf[1]))
+				oldL := sqlize.NewSqlize(sqlize.WithSqlite())
+				s.FromString("CREATE TABLE t (a INTEGER, b INTEGER);")
+				oldL.FromString("CREATE TABLE t (a INTEGER);")
+				s.Diff(*oldL)
+				upText, downText = s.StringUp(), s.StringDown()
+				if downText == "" && upText != "" {
+					c.count("up_with_empty_down")
+				}
+				err = s.WriteFiles(name)
 			case "emptyboth":
 				err = s.WriteFiles(name)
 			case "onlyup":
